@@ -405,6 +405,42 @@ func ruleP09Notation(p *Prog, r *Report) {
 				}
 			}
 		})
+		// the same layout assembled from three padded parts: strings.Join([]string{%04d, %02d, %02d}, sep)
+		if !okFmt {
+			eachVInstr(df, func(in ssa.Instruction) {
+				c, ok := in.(ssa.CallInstruction)
+				if !ok || staticCallee(c) == nil || staticCallee(c).String() != "strings.Join" {
+					return
+				}
+				els, isL := sliceLitElems(c.Common().Args[0])
+				if !isL || len(els) != 3 {
+					return
+				}
+				good := true
+				for i, e := range els {
+					pc, _ := callOf(e)
+					if pc == nil || staticCallee(pc) == nil || staticCallee(pc).String() != "fmt.Sprintf" {
+						good = false
+						continue
+					}
+					f0, isS := constString(pc.Common().Args[0])
+					args, isA := sliceLitElems(pc.Common().Args[1])
+					if !isS || f0 != []string{"%04d", "%02d", "%02d"}[i] || !isA || len(args) != 1 {
+						good = false
+						continue
+					}
+					if _, fld := fieldLoad(args[0]); fld != []string{"year", "month", "day"}[i] {
+						if n, _, _, _ := methodCall(args[0]); n != []string{"Year", "Month", "Day"}[i] {
+							good = false
+						}
+					}
+				}
+				if good {
+					okFmt = true
+					okSep = sepOK(c.Common().Args[1])
+				}
+			})
+		}
 		r.check(okFmt, rule, "date:layout", p.pos(df.Pos()), "dates print as YYYY sep MM sep DD with zero padding", "the date layout is not %04d%s%02d%s%02d")
 		r.check(okSep, rule, "date:separator", p.pos(df.Pos()), "separator is - with UseDashes and / without", "the date separator does not follow the value's own format")
 	}
